@@ -2,8 +2,11 @@ package main
 
 import (
 	"fmt"
+	"go/token"
 	"go/types"
 	"sort"
+	"strconv"
+	"strings"
 
 	"golang.org/x/tools/go/ssa"
 )
@@ -24,7 +27,56 @@ func (vc *VC) lookupLocal(name string, b *ssa.BasicBlock, idx int, st *State, ph
 		idx    int
 		isAddr bool
 	}
+	// rangeslice / rangesliceN: the slice a range loop iterates over (it may have no source name)
+	if strings.HasPrefix(name, "rangeslice") {
+		var head *ssa.BasicBlock
+		if rest := name[len("rangeslice"):]; rest != "" {
+			if n, err := strconv.Atoi(rest); err == nil {
+				for _, li := range vc.loopHead {
+					if li.ord == n {
+						head = li.head
+					}
+				}
+			}
+		} else {
+			// innermost loop head dominating (or equal to) b
+			for _, li := range vc.loopHead {
+				if (li.head == b || li.head.Dominates(b)) && (head == nil || head.Dominates(li.head)) {
+					head = li.head
+				}
+			}
+		}
+		if head != nil {
+			for _, in := range head.Instrs {
+				if bo, ok := in.(*ssa.BinOp); ok && bo.Op == token.LSS {
+					if call, ok := bo.Y.(*ssa.Call); ok {
+						if bi, ok := call.Call.Value.(*ssa.Builtin); ok && bi.Name() == "len" {
+							if _, defined := vc.vals[call.Call.Args[0]]; defined {
+								return vc.goVal(vc.val(call.Call.Args[0]), call.Call.Args[0].Type()), true
+							}
+						}
+					}
+				}
+			}
+		}
+		return SpecVal{}, false
+	}
 	var best *cand
+	// rangeindexN: the index of range loop#N (for invariants of loops nested inside it)
+	onlyHead := (*ssa.BasicBlock)(nil)
+	if strings.HasPrefix(name, "rangeindex") && len(name) > len("rangeindex") {
+		if n, err := strconv.Atoi(name[len("rangeindex"):]); err == nil {
+			for _, li := range vc.loopHead {
+				if li.ord == n {
+					onlyHead = li.head
+				}
+			}
+			if onlyHead == nil {
+				return SpecVal{}, false
+			}
+			name = "rangeindex"
+		}
+	}
 	better := func(c *cand) bool {
 		if best == nil {
 			return true
@@ -37,6 +89,9 @@ func (vc *VC) lookupLocal(name string, b *ssa.BasicBlock, idx int, st *State, ph
 	}
 	for _, blk := range vc.fn.Blocks {
 		if !(blk == b || blk.Dominates(b)) {
+			continue
+		}
+		if onlyHead != nil && blk != onlyHead {
 			continue
 		}
 		for i, in := range blk.Instrs {
